@@ -109,6 +109,10 @@ TAck == IsAck /\ cur' = [cur EXCEPT !.acks = @ + 1] /\ UNCHANGED <<cfg, sc, c, s
 \* the exchanges whose every consumed reply was acknowledged: what the client demonstrably received and understood
 Acked(xs) == SelectSeq(xs, LAMBDA x : x.acks >= Len(x.replies))
 
+Unfinished(x) == x.seq \in SequenceNames /\
+                 LET sq == SequencesTable[x.seq] IN
+                 x.replies = <<>> \/ ~(x.replies[Len(x.replies)].v \in sq.finals \/ ~sq.loop)
+
 TReturn ==
   /\ Ev.e = "ret" /\ pcall.op # ""
   /\ LET c1 == IF sync THEN Closed(c, cur) ELSE c
@@ -120,6 +124,11 @@ TReturn ==
          pf == IF clean THEN PFlags(cfg, open, pcall, xs, ret) \cup P08h(hist, pcall, xs) ELSE P20(cfg, open, pcall, Acked(xs), ret) IN
      /\ (IF good \/ ~sync \/ ~clean THEN TRUE ELSE PrintT(<<"IFLAG", sc, l, "result", ToJson([stage |-> c1.stage, exp |-> c1.res, got |-> ret.err, ok |-> ret.ok])>>))
      /\ (IF pf = {} THEN TRUE ELSE PrintT(<<"PFLAG", sc, l, ToJson(pf)>>))
+     \* on a healthy connection every exchange of the call was read to its end - to a final reply of its command (any reply for a
+     \* one-shot exchange): a client that stops reading while the terminal is still reporting makes up its own result (the pending
+     \* query is exempt: the client may give it up when the terminal answers it with something else)
+     /\ (IF clean /\ \E k \in 1..Len(xs) : Unfinished(xs[k]) /\ ~IsPendingQuery(xs[k])
+         THEN PrintT(<<"PFLAG", sc, l, ToJson({"abnormal-exchange-left-unfinished"})>>) ELSE TRUE)
      /\ open' = P07(cfg, open, pcall, xs, ret).open
      /\ hist' = HistNext(hist, open, P07(cfg, open, pcall, xs, ret).open, pcall)
      /\ sync' = good
